@@ -1841,6 +1841,22 @@ fn templates() -> Vec<Vec<Stmt>> {
             t.push(q);
         }
     }
+    // GENERATIONS: what a cleanup puts into the dying scope is torn down in a further pass, during which it may put more
+    // into it, and so on: the teardown goes on until the scope holds nothing
+    for inner in [vec![Signal(5)], vec![Signal(5), Effect(vec![Read(0)])], vec![Cleanup(vec![ReadU(0)])], vec![Scope(vec![Cleanup(vec![ReadU(0)])]), Memo(vec![Read(0)])]] {
+        for gens in [2usize, 3] {
+            let mut b = inner.clone();
+            for _ in 0..gens { b = vec![Cleanup(vec![RunIn(1, b)])]; }
+            let mut q = vec![Signal(0), Scope(vec![Effect(vec![Read(0)])])];
+            q.push(RunIn(1, b.clone()));
+            q.extend([s_set(0, 1), Dispose(1), s_set(0, 2), s_set(0, 3)]);
+            t.push(q);
+            let mut p = vec![Signal(0), Effect(vec![Read(0)])];
+            p.push(RunIn(1, b));
+            p.extend([s_set(0, 1), s_set(0, 2), Dispose(1), s_set(0, 3)]);
+            t.push(p);
+        }
+    }
     // a context provided by a computation's run goes with the re-run also when a cleanup put something into the scope during
     // the teardown (the re-run provides again / looks the value up)
     for memo in [false, true] {
